@@ -30,7 +30,10 @@ RULE = (
     "'//' and a line feed at the end of each segment when some rule comes near it; methods GET/POST/PUT when any "
     "rule restricts methods; WebSocket and plain requests when any rule is a websocket rule. non-trivial = distinct "
     "(rule set, config, path, method, request kind) for which at least two admissions exist or the outcome is a "
-    "redirect or 405."
+    "redirect or 405. Construction histories: for maps of 2-3 rules over the reduced universe (quick: strict+merge "
+    "on; thorough: pairs under every config, triples under strict == merge, pairs of extension rules) every insertion order x every split point k - "
+    "Map(rules[:k]), one match, Map.add() of the others one by one with a match in between - must give the "
+    "outcomes of the map built in one go."
 )
 ASSUMPTIONS = [
     "the adapter's leading-slash normalisation ('/' + path.lstrip('/')) is part of the documented interface",
@@ -370,6 +373,7 @@ def check_map(desc, R, tier, orders=None):
     R.use(f"size:{k}")
     local_out: set = set()
     nev = 0
+    nev_box = [0]
     for strict, merge in CONFIGS:
         ref = rr.RefMap(specs, strict, merge)
         cases = []
@@ -380,12 +384,15 @@ def check_map(desc, R, tier, orders=None):
                     ex = ref.expect(pn, method, websocket=ws)
                     note_expectation(R, ex, (strings, desc[-1], strict, merge, pn, method, ws))
                     cases.append([p, pn, method, ex, None, ws])
+        one_shot = {}
         for oi, order in enumerate(orders):
             ad = build_adapter(specs, order, strict, merge)
             R.count("bound_maps")
+            outs = one_shot[order] = []
             for case in cases:
                 p, pn, method, ex, first, ws = case
                 out = run_impl(ad, p, method, ws)
+                outs.append(out)
                 nev += 1
                 verdict = rr.judge(ex, out)
                 okind = out[0]
@@ -414,6 +421,8 @@ def check_map(desc, R, tier, orders=None):
                          "fd_late": info, "fd_explains": explains,
                          "factory_explains": factory_explains(specs, strict, merge, pn, method, ws, out)},
                     )
+        if history_wanted(desc, tier, strict, merge):
+            check_history(specs, orders, strict, merge, cases, one_shot, R, nev_box)
         if k >= 2 and R.counts["maps"] % 41 == 1 and strict and merge:
             for case in cases:
                 if len(case[3].adms) >= 2 and case[4] is not None and case[4][0] != "404":
@@ -421,10 +430,64 @@ def check_map(desc, R, tier, orders=None):
                               "insertion_orders": len(orders), "path": case[0], "method": case[2], "websocket": case[5],
                               "observed_first_order": case[4], "allowed": case[3].describe()})
                     break
-    R.ev(nev)
+    R.ev(nev + nev_box[0])
     for okind, verdict in local_out:
         R.outcome((okind, verdict))
         R.use("out:" + okind)
+
+
+# construction histories: the same rules in the same order, but the map is built in steps - Map(rules[:k]), used
+# once (bind + match forces Map.update()), then Map.add() for the rest one by one with a match in between.  The
+# result must be the map built in one go.
+HIST_SHAPES = None
+
+
+def history_wanted(desc, tier, strict, merge):
+    global HIST_SHAPES
+    if HIST_SHAPES is None:
+        HIST_SHAPES = {IDX[x] for x in REDUCED_THOROUGH}
+    if desc[0] == "ext":
+        return tier == "thorough" and strict and merge and len(desc[1]) == 2
+    shapes, methods = desc
+    k = len(shapes)
+    if k < 2 or k > 3 or not all(i in HIST_SHAPES for i in shapes):
+        return False
+    if tier == "thorough":
+        return k == 2 or (all(m is None for m in methods) and strict == merge)
+    if not (strict and merge):
+        return False
+    if k == 3:
+        return all(m is None for m in methods) and all(SHAPE_STR[i] in REDUCED_QUICK for i in shapes)
+    return methods in ((None, None), (G, P))
+
+
+def build_incrementally(specs, order, split, strict, merge, probe="/zz"):
+    m = Map([rr.to_werkzeug(specs[i], WR) for i in order[:split]], strict_slashes=strict, merge_slashes=merge)
+    run_impl(m.bind("h"), probe, "GET")              # the map is in use: Map.update() has run
+    for i in order[split:]:
+        m.add(rr.to_werkzeug(specs[i], WR))
+        run_impl(m.bind("h"), probe, "GET")
+    return m.bind("h")
+
+
+def check_history(specs, orders, strict, merge, cases, one_shot, R, nev_box):
+    strings = [rr.full_rule_string(sp) for sp in specs]
+    for order in orders:
+        want = one_shot[order]
+        for split in range(len(order)):
+            ad = build_incrementally(specs, order, split, strict, merge)
+            R.count("histories")
+            R.use("history:split%d" % split)
+            for case, exp_out in zip(cases, want):
+                p, pn, method, ex, _first, ws = case
+                out = run_impl(ad, p, method, ws)
+                nev_box[0] += 1
+                if out != exp_out:
+                    R.violation("history:differs-from-one-shot",
+                                {"kind": "history", "rules": specs, "order": list(order), "split": split,
+                                 "strict": strict, "merge": merge, "path": p, "method": method, "websocket": ws,
+                                 "outcome": out, "one_shot": exp_out, "rule_strings": [strings[i] for i in order]})
+                    break
 
 
 def factory_explains(specs, strict, merge, pn, method, ws, out):
@@ -478,7 +541,8 @@ def finalize(R, tier):
             "oracle:405-or-404-may", "oracle:incomparable", "oracle:order-may",
             "leaf", "branch", "methods", "anymethod", "size:1", "size:2", "size:3", "size:4",
             "seg:lit", "seg:path", "out:wsmismatch", "oracle:websocket-mismatch", "rule-websocket", "rule-defaults",
-            "rule-strict:True", "rule-strict:False", "rule-merge:False", "wrap:nested"}
+            "rule-strict:True", "rule-strict:False", "rule-merge:False", "wrap:nested",
+            "history:split0", "history:split1", "history:split2"}
             | {"wrap:" + w for w in rr.WRAPPERS} | {"seg:" + c for c in EXT_CONVS}
             | {"seg:" + c for c in SINGLE_CONVS} | {"seg:int+affix", "seg:string+affix"})
     if tier == "thorough":
@@ -502,6 +566,17 @@ def finalize(R, tier):
 # ------------------------------------------------------------------ replay / findings
 
 def replay(rec):
+    if rec.get("kind") == "history":
+        specs = [rr.norm_spec(d) for d in rec["rules"]]
+        order = tuple(int(i) for i in rec["order"])
+        ws = rec.get("websocket")
+        a = run_impl(build_adapter(specs, order, rec["strict"], rec["merge"]), rec["path"], rec["method"], ws)
+        b = run_impl(build_incrementally(specs, order, int(rec["split"]), rec["strict"], rec["merge"]),
+                     rec["path"], rec["method"], ws)
+        names = [rr.full_rule_string(specs[i]) for i in order]
+        return a != b, (f"rules (in this order) {names}, strict_slashes={rec['strict']}, merge_slashes={rec['merge']}\n"
+                        f"Map(all rules).match({rec['path']!r}, {rec['method']!r}) = {a}\n"
+                        f"Map(first {rec['split']} rules), one match, then Map.add() for the others (a match after each): {b}")
     if rec.get("kind") != "route":
         return True, rec.get("traceback", "unit exception")
     specs = [rr.norm_spec(d) for d in rec["rules"]]
